@@ -41,10 +41,15 @@ def run(ctx):
                        "counted, not judged"]
     import time
     t0 = time.time()
-    scope = dict(max_n=3, max_t=2 if q else 3, max_edges=2 if q else 3, max_m=1, spans=(1, 2),
-                 js=(1, 2) if q else (1, 2, 3), fixed_modes=("zeros",) if q else ("none", "zeros", "last"), emit=True)
+    scope = dict(max_n=3, max_t=2, max_edges=2 if q else 3, max_m=1, spans=(1, 2),
+                 js=(1, 2) if q else (1, 2, 3), fixed_modes=("zeros",) if q else ("zeros", "last"), emit=True)
     r = rc.rs_run(ctx, "c25_j1", rc.RS_INVARIANTS + ["EmitInv"], **scope)
-    groups = rc.group_rescale(r.rec("resc"))
+    recs = r.rec("resc")
+    if not q:  # four nodes: up to three epochs
+        rb = rc.rs_run(ctx, "c25_j1b", rc.RS_INVARIANTS + ["EmitInv"], max_n=4, max_t=3, max_edges=2, max_m=1,
+                       spans=(1,), js=(2, 3), fixed_modes=("zeros",), emit=True)
+        recs = recs + rb.rec("resc")
+    groups = rc.group_rescale(recs)
     ctx.exhaustive = True
     cap = 4000 if q else 60000
     if len(groups) > cap:
